@@ -20,7 +20,8 @@ TRUSTED_BASE = [
     "and a stub TLS upstream (harness/common/chainrig.go, export harness/exports/app_chain_export.go)",
     "modelled, not verified (validated by the differential run only): net/http request parsing, header-name "
     "canonicalisation, field-value validation and trimming, client-go wrapper order, the fork's WithAuthentication, "
-    "url.PathUnescape; connection upgrades are outside the model",
+    "url.PathUnescape; for connection upgrades the header pipeline up to the request the upstream receives is modelled "
+    "(apimachinery tryUpgrade / DialForUpgrade / http.Request.Write), the tunnel after 101 is not",
 ]
 ASSUMPTIONS = [
     "a response stream cut in the middle (net/http race between the server closing the request body and the outgoing "
@@ -99,6 +100,28 @@ def corpus():
     c.append(L.mk_case(user=ident(b"", [], []), tag="empty-name"))
     c.append(L.mk_case(user=ident(b"", [b"system:masters"], []), tag="empty-name-groups"))
     c.append(L.mk_case(user=ident(b"", [], []), headers=[(b"Impersonate-User", b"bob")], tag="empty-name-imp"))
+    # connection upgrades (kubectl exec / attach / port-forward): witness of seeded change C02-c (upgrade transport built
+    # without the impersonating wrapper => the upstream sees no Impersonate-* header and acts as the gateway)
+    up = [(b"Connection", b"Upgrade"), (b"Upgrade", b"SPDY/3.1")]
+    c.append(L.mk_case(method="POST", target=b"/api/v1/namespaces/n/pods/p/exec?command=ls", reply=(101, [], (5, 1)),
+                       headers=up + [(b"Authorization", b"Bearer client"), (b"Impersonate-Uid", b"7"), (b"X-Custom", b"1")],
+                       user=ident(b"alice", [b"dev"], [(b"scopes", [b"view"])]), tag="upgrade-self"))
+    c.append(L.mk_case(host="plain.test", method="POST", target=b"/api/v1/namespaces/n/pods/p/exec?command=ls",
+                       reply=(101, [], (5, 1)), headers=up + [(b"Authorization", b"Bearer client")],
+                       user=ident(b"alice", [b"dev"], [(b"scopes", [b"view"])]), tag="upgrade-self-plain-http"))
+    c.append(L.mk_case(host="plain.test", target=b"/api/v1/namespaces/n/pods/p/attach", reply=(101, [], (5, 1)),
+                       headers=up + [(b"Impersonate-User", b"bob"), (b"Impersonate-Group", b"ops")], tag="upgrade-imp-plain-http"))
+    c.append(L.mk_case(target=b"/api/v1/namespaces/n/pods/p/attach", reply=(101, [], (5, 1)),
+                       headers=[(b"Connection", b"keep-alive, upgrade"), (b"Upgrade", b"websocket"),
+                                (b"Impersonate-User", b"bob"), (b"Impersonate-Group", b"ops")], tag="upgrade-imp"))
+    c.append(L.mk_case(target=b"/api/v1/namespaces/n/pods/p/exec", reply=(101, [], (5, 1)),
+                       headers=up + [(b"Impersonate-User", b"bob")], deny=[("users", b"", b"bob", b"")], tag="upgrade-denied"))
+    c.append(L.mk_case(target=b"/api/v1/namespaces/n/pods/p/exec", reply=(101, [], (5, 1)),
+                       headers=up + [(b"Impersonate-Group", b"x")], tag="upgrade-malformed"))
+    c.append(L.mk_case(target=b"/api/v1/namespaces/n/pods/p/portforward",
+                       reply=(403, [(b"Content-Type", b"text/plain")], (7, 1)), headers=up, tag="upgrade-refused-by-upstream"))
+    c.append(L.mk_case(target=b"/api/v1/namespaces/n/pods/p/exec", reply=(101, [], (5, 1)), headers=up,
+                       user=ident(b"", [], []), tag="upgrade-empty-name"))
     # rejected by net/http itself
     c.append(L.mk_case(headers=[(b"Impersonate-Extra-a/b", b"1"), (b"Impersonate-User", b"bob")], tag="bad-name"))
     return c
@@ -184,7 +207,22 @@ def gen_case(rng):
             deny.append(rng.choice(items))
     elif r < 5:
         deny.append(("users", b"", b"nobody", b""))
-    return L.mk_case(headers=hs, user=rand_identity(rng), deny=deny, tag="gen")
+    user = rand_identity(rng)
+    if rng.chance(1, 4):
+        # a connection upgrade; http.Request.Write does not validate field values, so keep to identities HTTP can carry
+        hs = [(k, v) for k, v in hs if k.lower() != b"connection"]
+        hs.insert(rng.below(len(hs) + 1), (L.rand_case_flip(rng, b"Connection"), rng.choice([b"Upgrade", b"upgrade", b"keep-alive, Upgrade"])))
+        hs.insert(rng.below(len(hs) + 1), (L.rand_case_flip(rng, b"Upgrade"), rng.choice([b"SPDY/3.1", b"websocket"])))
+        ok = lambda v: v == v.strip(b" \t") and all(c in L.VALUE_BYTES for c in v)
+        if not (ok(user[0]) and all(ok(g) for g in user[1]) and all(ok(v) for _, vs in user[2] for v in vs)):
+            user = (rng.choice(NAMES), [g for g in user[1] if ok(g)], [(k, [v for v in vs if ok(v)]) for k, vs in user[2]])
+        return L.mk_case(host=rng.choice(["ok.test", "plain.test"]), method=rng.choice(["GET", "POST"]),
+                         target=rng.choice([b"/api/v1/namespaces/n/pods/p/exec?command=sh",
+                         b"/api/v1/namespaces/n/pods/p/attach", b"/api/v1/namespaces/n/pods/p/portforward"]),
+                         headers=hs, user=user, deny=deny, tag="gen-upgrade",
+                         reply=(101, [], (rng.randint(0, 40), rng.randint(1, 99))) if rng.chance(3, 4)
+                         else (rng.choice([400, 403, 404]), [(b"Content-Type", b"text/plain")], (7, 1)))
+    return L.mk_case(host=rng.choice(["ok.test", "ok.test", "plain.test"]), headers=hs, user=user, deny=deny, tag="gen")
 
 
 def generate(rng, tier, scale=1):
@@ -234,6 +272,8 @@ def nontrivial_key(case, obs):
 
 def stats(case, obs):
     labs = ["family:" + f for f in sorted(_families(case))] or ["family:none"]
+    if any(bytes(h["k"]).lower() == b"connection" and b"upgrade" in bytes(h["v"]).lower() for h in case["headers"]):
+        labs.append("path:connection-upgrade")
     if L.panic_obs(obs):
         return labs + ["outcome:panic"]
     if obs.get("retries"):
@@ -279,13 +319,13 @@ def known_match(entry, case, obs, failed):
 LEVEL_TEXT = ("partial proof: Coq theorems over every header set, every authenticated identity (arbitrary bytes) and every "
               "authorizer about a Gallina model of the gateway's header pipeline (authentication filter, impersonation filter, "
               "reverse-proxy hop-by-hop stripping, client-go user-agent/bearer wrappers, dynamic impersonating round tripper, "
-              "headerKeyEscape): the identity told to the upstream is exactly the expected one, denied/malformed/unnamed "
+              "headerKeyEscape; and the connection-upgrade path: tryUpgrade, WrapRequest of the upgrade transport): the identity told to the upstream is exactly the expected one, denied/malformed/unnamed "
               "requests are not forwarded, no client Authorization or Impersonate-* header survives, the extra-key percent codec "
               "round-trips for all byte strings. The header/percent-codec algebra is proved; the net/http stack (parsing, "
               "canonicalisation, field-value rules) is modelled and validated only by the differential run of the real handler "
               "chain against the model on every check")
 LEVEL_NOTE = ("trusted: Coq kernel + vm_compute, the hand-written model (tied to /repo by the differential run only), the Go rig "
               "(real chain + stub upstream) and overlay export; modelled not verified: net/http, textproto canonicalisation, "
-              "client-go wrapper order, the fork's WithAuthentication, url.PathUnescape; connection upgrades outside the model; "
+              "client-go wrapper order, the fork's WithAuthentication, url.PathUnescape; connection upgrades: request headers modelled, tunnel not; "
               "extra keys modulo ASCII case, extra pairs as multisets; no axioms")
 TECHNIQUE = "Coq proof (header algebra, percent codec) + differential model/implementation correspondence on the real handler chain"
